@@ -594,6 +594,7 @@ impl TabHarness {
                     Shr::Len => len,
                     Shr::LenPlus1 => len + 1,
                     Shr::CapMinus1 => cap.saturating_sub(1),
+                    Shr::CapPlus1 => cap + 1,
                 };
                 s.table.shrink_to(m, hasher);
                 chk!(c, s.table.capacity() >= len.max(m.min(cap)), "shrink_to({m}) left capacity {}", s.table.capacity());
@@ -702,6 +703,7 @@ impl Harness for TabHarness {
         if self.cfg.full_alphabet {
             v.push(TabOp::ShrinkTo(Shr::Zero));
             v.push(TabOp::ShrinkTo(Shr::CapMinus1));
+            v.push(TabOp::ShrinkTo(Shr::CapPlus1));
         }
         v
     }
